@@ -481,7 +481,7 @@ def div(a, b):
         bposz = bor(bpos, bzero)
         pinf = band(toinf, bor(band(apos, bposz), band(aneg, bneg)))
         ninf = band(toinf, bor(band(apos, bneg), band(aneg, bposz)))
-        safe_b = ite(bzero, 1, bvv)
+        safe_b = ite(bor(bzero, binf), 1, bvv)      # (the value slot of an infinite divisor is 0: never divide by it)
         val = ite(binf, 0, _div(av, safe_b))
         return mkx(nan, pinf, ninf, val)
     a, b = as_num(a), as_num(b)
